@@ -441,3 +441,54 @@ Example check_values_pins :
   check_values false [(0, 1, 2, 1); (0, 1, 2, 2); (0, 1, -1 # 2, 0)]%Q = [true; false; true] /\
   check_values true [(0, 2, 1 # 2, 3 # 2); (0, 2, 1 # 2, 1 # 2)]%Q = [true; false].
 Proof. split; vm_compute; reflexivity. Qed.
+
+(* ------------------------------------------------------------------ model mutation score, second sample *)
+
+(* reshape((-1, *space.shape)) of a Dict entry: a batch size exists exactly when the element count is a multiple of the (positive)
+   per-observation element count, and it is the quotient *)
+Theorem reshape_batch_spec sp o b :
+  reshape_batch sp o = Some b <-> 0 < prodZ (space_shape sp) /\ prodZ o = b * prodZ (space_shape sp).
+Proof.
+  unfold reshape_batch. set (d := prodZ (space_shape sp)). split.
+  - destruct (Z.ltb_spec 0 d) as [P|P]; cbn [andb]; [|discriminate].
+    destruct (Z.eqb_spec (prodZ o mod d) 0) as [M|M]; [|discriminate].
+    intros H. inversion H; subst b. split; [exact P|].
+    rewrite (Z.div_mod (prodZ o) d) at 1 by lia. rewrite M. ring.
+  - intros [P E]. destruct (Z.ltb_spec 0 d) as [_|N]; [|lia]. cbn [andb].
+    rewrite E, Z.mod_mul by lia. cbn. rewrite Z.div_mul by lia. reflexivity.
+Qed.
+
+(* the input width of the output layer is the last hidden width, or input_dim without hidden layers: the default of `last arch 0` in
+   mlp_body is never used (equivalent mutant) *)
+Lemma last_default_irrelevant {A} (l : list A) a b : l <> [] -> last l a = last l b.
+Proof.
+  induction l as [|x l IH]; intros H; [contradiction|]. destruct l as [|y l']; [reflexivity|].
+  change (last (y :: l') a = last (y :: l') b). apply IH. discriminate.
+Qed.
+
+Theorem mlp_output_layer i o arch b npre npost : 0 < o ->
+  exists pre, mlp_body i o arch b npre npost = pre ++ repeat (LPre (last arch i)) npre ++ [LLinear (last arch i) o b].
+Proof.
+  intros H. unfold mlp_body. apply Z.ltb_lt in H. rewrite H.
+  assert (E : (if 0 <? Z.of_nat (length arch) then last arch 0 else i) = last arch i).
+  { destruct arch as [|a r]; [reflexivity|].
+    replace (0 <? Z.of_nat (length (a :: r))) with true by (symmetry; apply Z.ltb_lt; cbn [length]; lia).
+    apply last_default_irrelevant. discriminate. }
+  rewrite E. eexists. rewrite app_assoc. reflexivity.
+Qed.
+
+(* observation helpers of the correspondence entry points *)
+Example show_opt_pins : show_opt (Some [2; 3]) = [1; 2; 3] /\ show_opt (Some []) = [1] /\ show_opt None = [0].
+Proof. repeat split. Qed.
+Example layer_code_pins :
+  map layer_code [LPre 7; LLinear 3 4 true; LPost 8; LAct; LTanh] =
+  [(1, 7, 0, false); (2, 3, 4, true); (3, 8, 0, false); (4, 0, 0, false); (5, 0, 0, false)] /\
+  show_mlp 5 2 [8] true false 1 1 =
+  [(1, 5, 0, false); (2, 5, 8, false); (3, 8, 0, false); (4, 0, 0, false); (1, 8, 0, false); (2, 8, 2, false); (5, 0, 0, false)].
+Proof. split; vm_compute; reflexivity. Qed.
+Example check_predict_pins :
+  check_predict (SBox [2] false) [3] [4; 2] = ([1; 4; 3], [1; 4]) /\
+  check_predict (SBox [2] false) [3] [5] = ([0], [0]) /\
+  check_predict_dict [SBox [2] false; SDiscrete] [3] [[4; 2]; [4]] = [1; 4; 3] /\
+  check_predict_dict [SBox [2] false; SDiscrete] [3] [[4; 2]; []] = [0].
+Proof. vm_compute. repeat split; reflexivity. Qed.
